@@ -50,10 +50,11 @@ pub fn gen_text(rng: &mut Rng, n: usize) -> Vec<u32> {
 }
 
 pub fn gen(rng: &mut Rng, size: usize) -> Value {
-    let n = rng.below((size * 30) as u64 + 1) as usize;
+    let large = rng.chance(1, 40);
+    let n = if large { 700 + rng.below(900) as usize } else { rng.below((size * 30) as u64 + 1) as usize };
     let text = gen_text(rng, n);
     let nlines = 1 + text.iter().filter(|&&c| c == 10 || c == 13).count() as i64;
-    let ncalls = 1 + rng.below(if size > 4 { 50 } else { 12 });
+    let ncalls = if large { 1 + rng.below(4) } else { 1 + rng.below(if size > 4 { 50 } else { 12 }) };
     let calls: Vec<Value> = (0..ncalls).map(|_| match rng.below(10) {
         0 => json!({"op": "line_count"}),
         1 => json!({"op": "lines"}),
